@@ -40,7 +40,7 @@
 using namespace ltv;
 
 // T case (two lifetimes, real save):
-//   T <piece_len> <len> <len> ... | <pieces missing at start: i,i or -> | <history ops> | <post-crash: per-file perturbation ...> [lose=i,i]
+//   T <piece_len> <len>[s] ... (s: that data file is a symbolic link) | <pieces missing at start: i,i or - or * (all)> | <history ops> | <post-crash: per-file perturbation ...> [lose=i,i]
 //   lifetime 1: files written (listed pieces corrupt on disk), download_add, open, full hash_check; then the ops:
 //       start | stop | dl (a scripted seeder serves every request until nothing is missing) | dl=i,i (serves only these
 //       pieces) | dlhold=i,i (same, connection stays up: other requested pieces remain in flight) | drop | adv<minutes> |
@@ -48,11 +48,28 @@ using namespace ltv;
 //       save (resume_save_progress + resume_save_uncertain_pieces, at any moment while open)
 //     then the torrent is removed ("crash").
 //   post-crash per file:  =  untouched   D  deleted   T<n>  truncated   W  rewritten in place, same size, mtime + 7 s
-//     lose=i,i : the bytes of these pieces are overwritten, file sizes and mtimes stay as they were
+//     lose=i,i | lose=%k (every k-th piece): the bytes of these pieces are overwritten, file sizes and mtimes stay as they were
+//   Lq / Tq instead of L / T: the second lifetime checks the way rtorrent does (quick check first, then stop + full check)
 //   lifetime 2: 10 s later: download_add, open, resume_load_progress of the saved object, hash_check(false).
 // Output:  saved=<per file R|0|1|2|A, or -> sbf=<V<n>|S<hex>|-> unc=<i,i|none> cl=<completed-list length at the last save>
 //          load_ranges=<membership> bits=<after check>
 //          ||  ssl=<valid on disk by OpenSSL> sound=<0|1>
+// how the second lifetime runs "the check the resume data requests": directly (hash_check(false)), or the way rtorrent does at
+// start-up: hash_check(true) first and, when that reports there is something to hash, hash_stop() + hash_check(false)
+static bool g_quick_first = false;
+
+static void requested_check(Session& S, torrent::Download d) {
+  if (g_quick_first) {
+    if (!d.hash_check(true)) {
+      d.hash_stop();
+      d.hash_check(false);
+    }
+  } else {
+    d.hash_check(false);
+  }
+  S.settle([d]() { return d.is_hash_checked() || !d.info()->is_open(); }, 20000);
+}
+
 static std::vector<uint32_t> parse_list(const std::string& s) {
   std::vector<uint32_t> v;
   if (s == "-" || s.empty()) return v;
@@ -95,7 +112,8 @@ static void serve(Session& S, Torrent* T, const std::vector<uint32_t>& only, boo
     for (uint32_t i : only) if (i < np && !bf->get(i)) return false;
     return true;
   };
-  for (int round = 0; round < 400 && !wanted_done(); round++) {
+  int stall = 0;
+  for (int round = 0; round < 100000 && stall < 60 && !wanted_done(); round++) {
     pump(S, {&P});
     WireMsg m;
     bool any = false;
@@ -110,9 +128,10 @@ static void serve(Session& S, Torrent* T, const std::vector<uint32_t>& only, boo
     }
     pump(S, {&P});
     if (!any) {
+      stall++;
       S.settle([&]() { return wanted_done(); }, 100);
       if (P.eof) break;
-    }
+    } else stall = 0;
   }
   if (hold) {
     // now offer every other piece too and leave the requests for them unanswered: pieces in flight
@@ -139,15 +158,41 @@ static std::string run_case(Session& S, const std::string& line, unsigned serial
   if (sec.size() != 4) return "BADCASE";
   auto lay = split_ws(sec[0]), miss = split_ws(sec[1]), ops = split_ws(sec[2]), pert = split_ws(sec[3]);
   std::vector<uint32_t> lose;
-  if (!pert.empty() && pert.back().rfind("lose=", 0) == 0) { lose = parse_list(pert.back().substr(5)); pert.pop_back(); }
+  std::string lose_spec;
+  if (!pert.empty() && pert.back().rfind("lose=", 0) == 0) { lose_spec = pert.back().substr(5); pert.pop_back(); }
   if (lay.size() < 2 || pert.size() != lay.size() - 1 || miss.size() != 1) return "BADCASE";
   TorrentSpec spec;
   spec.name = "r" + std::to_string(serial);
   spec.piece_length = (uint32_t)std::stoul(lay[0]);
-  for (size_t i = 1; i < lay.size(); i++) spec.files.push_back({"f" + std::to_string(i - 1), std::stoull(lay[i])});
-  spec.corrupt_pieces = parse_list(miss[0]);
+  std::vector<bool> linked;
+  uint64_t total_len = 0;
+  for (size_t i = 1; i < lay.size(); i++) {
+    bool sl = !lay[i].empty() && lay[i].back() == 's';      // <len>s: the data file is a symbolic link to the real file
+    linked.push_back(sl);
+    uint64_t len = std::stoull(sl ? lay[i].substr(0, lay[i].size() - 1) : lay[i]);
+    spec.files.push_back({"f" + std::to_string(i - 1), len});
+    total_len += len;
+  }
+  uint32_t np0 = (uint32_t)((total_len + spec.piece_length - 1) / spec.piece_length);
+  if (miss[0] == "*") { for (uint32_t i = 0; i < np0; i++) spec.corrupt_pieces.push_back(i); }     // nothing valid at the start
+  else spec.corrupt_pieces = parse_list(miss[0]);
+  if (!lose_spec.empty() && lose_spec[0] == '%') {       // lose=%k: every k-th piece
+    uint32_t k = (uint32_t)std::stoul(lose_spec.substr(1));
+    for (uint32_t i = 0; i < np0; i += k) lose.push_back(i);
+  } else if (!lose_spec.empty()) lose = parse_list(lose_spec);
   Torrent* T = S.add_torrent(spec);
   if (!T->dl.is_hash_checked()) return "BADCASE lifetime1";
+  for (size_t k = 0; k < linked.size(); k++) {
+    if (!linked[k]) continue;
+    // move the file into ../st and leave a link; where the length allows it the link text is exactly as long as the file
+    std::string p = T->root + "/f" + std::to_string(k);
+    std::string st = std::filesystem::path(T->root).parent_path().string() + "/st";
+    std::filesystem::create_directories(st);
+    uint64_t len = spec.files[k].length;
+    std::string name = std::to_string(k % 10) + ((len >= 12 && len <= 200) ? std::string((size_t)len - 7, 'x') : std::string("f"));
+    if (::rename(p.c_str(), (st + "/" + name).c_str()) != 0) return "BADCASE rename";
+    if (::symlink(("../st/" + name).c_str(), p.c_str()) != 0) return "BADCASE symlink";
+  }
   torrent::Object resume = torrent::Object::create_map();
   bool have_save = false;
   size_t cl_at_save = 0, tl_at_save = 0;
@@ -302,8 +347,7 @@ static std::string run_case(Session& S, const std::string& line, unsigned serial
   uint32_t n = d.file_list()->size_chunks();
   std::string ranges;
   for (uint32_t i = 0; i < n; i++) ranges.push_back(d.ptr()->hash_checker()->hashing_ranges().has(i) ? '1' : '0');
-  d.hash_check(false);
-  S.settle([d]() { return d.is_hash_checked() || !d.info()->is_open(); }, 20000);
+  requested_check(S, d);
   std::string bits;
   const torrent::Bitfield* bf = d.file_list()->bitfield();
   if (bf->empty()) bits = "-";
@@ -482,8 +526,7 @@ static std::string run_load(Session& S, const std::string& line, unsigned serial
     out.push_back(f->is_create_queued() ? '1' : '0');
     out.push_back(f->is_resize_queued() ? '1' : '0');
   }
-  d.hash_check(false);
-  S.settle([d]() { return d.is_hash_checked() || !d.info()->is_open(); }, 20000);
+  requested_check(S, d);
   std::string fin = d.info()->is_open() ? bits_str(d) : "closed";
   bool sound = true;
   if (fin != "closed" && fin != "-")
@@ -506,6 +549,8 @@ static int worker_main() {
   while (std::getline(std::cin, line)) {
     try {
       if (!S) S = std::make_unique<Session>();
+      g_quick_first = line.size() > 2 && line[1] == 'q';
+      if (g_quick_first) line.erase(1, 1);
       if (line.rfind("L ", 0) == 0) std::cout << run_load(*S, line, serial++) << "\n";
       else if (line.rfind("T ", 0) == 0) std::cout << run_case(*S, line.substr(2), serial++) << "\n";
       else std::cout << "BADCASE\n";
@@ -523,4 +568,88 @@ static int worker_main() {
   return 0;
 }
 
-int main(int argc, char** argv) { return ltv::supervise(argc, argv, worker_main); }
+// ------------------------------------------------------------------------------------------
+// --probe: constants and repairs measured on the COMPILED code (no source text involved)
+static std::vector<int> probe_prune(Session& S, unsigned serial, const std::vector<int>& ages_min) {
+  // a torrent with one missing piece; synthetic completed-list entries of the given ages (index = age); then ONE real
+  // completion, whose TransferList::hash_succeeded runs the pruning; returns the ages that survive
+  TorrentSpec spec;
+  spec.name = "q" + std::to_string(serial);
+  spec.piece_length = 2048;
+  spec.files = {{"f0", 4096}};
+  spec.corrupt_pieces = {1};
+  Torrent* T = S.add_torrent(spec);
+  auto* tl = const_cast<torrent::TransferList*>(T->dl.transfer_list());
+  for (int a : ages_min) tl->m_completedList.emplace_back(S.now_us() - (int64_t)a * 60 * 1000000ll, (uint32_t)(1000 + a));
+  S.start(T);
+  serve(S, T, {}, false);
+  std::vector<int> left;
+  for (auto& e : tl->completed_list()) if (e.second >= 1000) left.push_back((int)e.second - 1000);
+  S.remove(T);
+  return left;
+}
+
+static int probe_main() {
+  std_setup();
+  Session S;
+  unsigned serial = 0;
+  auto field = [](const std::string& out, const std::string& key) {
+    size_t p = out.find(key + "=");
+    if (p == std::string::npos) return std::string();
+    size_t e = out.find(' ', p);
+    return out.substr(p + key.size() + 1, e == std::string::npos ? std::string::npos : e - p - key.size() - 1);
+  };
+  // repairs, decided by behaviour
+  std::string o1 = run_load(S, "L 2048 1000 | 8192,8192,500 8192,-1,0 | top=m files=500,500 bf=V8 unc=none ts=none | -", serial++);
+  std::string o2 = run_load(S, "L 2048 1000 | 8192,8192,500 8192,8192,500 | top=m files=500,x bf=V8 unc=none ts=none | -", serial++);
+  std::string o3 = run_load(S, "L 2048 1000 | 8192,8192,500 8192,8192,500 | top=m files=-4,-4 bf=V8 unc=ffffffff00000002 ts=900 | -", serial++);
+  int checks_exists = field(o1, "ranges") == "00001111" ? 1 : 0;
+  int validates = field(o2, "out") == "Ignored" ? 1 : 0;
+  int skips = field(o3, "out") == "Loaded" ? 1 : 0;
+  // uncertain window: which synthetic completion ages does resume_save_uncertain_pieces write
+  int window = 0;
+  {
+    TorrentSpec spec;
+    spec.name = "w";
+    spec.piece_length = 2048;
+    spec.files = {{"f0", 4096}};
+    Torrent* T = S.add_torrent(spec);
+    auto* tl = const_cast<torrent::TransferList*>(T->dl.transfer_list());
+    for (int a = 240; a >= 1; a--) tl->m_completedList.emplace_back(S.now_us() - (int64_t)a * 60 * 1000000ll + 1000000, (uint32_t)a);
+    torrent::Object r = torrent::Object::create_map();
+    torrent::resume_save_uncertain_pieces(T->dl, r);
+    if (r.has_key_string("uncertain_pieces")) {
+      const std::string& u = r.get_key_string("uncertain_pieces");
+      for (size_t i = 0; i + 4 <= u.size(); i += 4) {
+        int v = (int)((uint32_t((unsigned char)u[i]) << 24) | (uint32_t((unsigned char)u[i + 1]) << 16) | (uint32_t((unsigned char)u[i + 2]) << 8) | (unsigned char)u[i + 3]);
+        window = std::max(window, v);
+      }
+    }
+    tl->m_completedList.clear();
+    S.remove(T);
+  }
+  // pruning: keep = oldest age that survives a prune; prune_after = smallest age of the oldest entry that triggers one
+  int keep = 0, prune_after = 0;
+  {
+    std::vector<int> ages;
+    for (int a = 480; a >= 1; a--) ages.push_back(a);
+    auto left = probe_prune(S, serial++, ages);
+    for (int a : left) keep = std::max(keep, a);
+    int lo = 0, hi = 480;    // an only entry of age a (> keep) is erased iff a > prune_after
+    while (hi - lo > 1) {
+      int mid = (lo + hi) / 2;
+      auto l2 = probe_prune(S, serial++, {mid});
+      if (l2.empty()) hi = mid; else lo = mid;
+    }
+    prune_after = lo;
+  }
+  std::cout << "{\"load_checks_exists\": " << checks_exists << ", \"load_validates_entries\": " << validates
+            << ", \"unc_skips_out_of_range\": " << skips << ", \"uncertain_window_min\": " << window
+            << ", \"completed_keep_min\": " << keep << ", \"completed_prune_after_min\": " << prune_after << "}\n";
+  return 0;
+}
+
+int main(int argc, char** argv) {
+  if (argc > 1 && std::strcmp(argv[1], "--probe") == 0) return probe_main();
+  return ltv::supervise(argc, argv, worker_main);
+}
